@@ -101,21 +101,49 @@ type pstate struct {
 	prev  *pstate
 	note  string
 	known string // TrackEq: "X=const;..." facts taken on the path, sorted
+	env   *pathEnv
 }
+
+// PathInsensitive switches the value-identity path sensitivity (pathsense.go) off (debugging aid).
+var PathInsensitive bool
+
+const maxReachStates = 60000
 
 // Reach reports whether some TARGET is reachable from starts without passing an enabling event,
 // and if so a witness path.
 func (p *Program) Reach(starts []Loc, target InstrPred, cut CutSpec) (bool, []string) {
+	bad, w, overflow := p.reach(starts, target, cut, !PathInsensitive)
+	if overflow {
+		// too many distinct path states: fall back to the path-insensitive search (a superset of paths)
+		bad, w, _ = p.reach(starts, target, cut, false)
+	}
+
+	return bad, w
+}
+
+func (p *Program) reach(starts []Loc, target InstrPred, cut CutSpec, sensitive bool) (bool, []string, bool) {
 	type key struct {
 		b, pred *ssa.BasicBlock
 		known   string
+		env     string
 	}
 
 	seen := map[key]bool{}
 
+	var sense *funcSense
+
+	if sensitive && len(starts) > 0 && starts[0].B != nil {
+		sense = p.sense(starts[0].B.Parent())
+	}
+
 	var queue []*pstate
 	for _, s := range starts {
-		queue = append(queue, &pstate{blk: s.B, idx: s.I, known: s.Known})
+		env := emptyEnv
+		if sense != nil && s.B != nil {
+			env = seedEnv(s.B)
+		}
+
+		queue = append(queue, &pstate{blk: s.B, idx: s.I, known: s.Known, env: env})
 	}
 
 	for len(queue) > 0 {
@@ -123,12 +151,16 @@ func (p *Program) Reach(starts []Loc, target InstrPred, cut CutSpec) (bool, []st
 		queue = queue[1:]
 
 		if cur.idx == 0 {
-			k := key{cur.blk, cur.pred, cur.known}
+			k := key{cur.blk, cur.pred, cur.known, cur.env.key}
 			if seen[k] {
 				continue
 			}
 
 			seen[k] = true
+
+			if len(seen) > maxReachStates {
+				return false, nil, true
+			}
 		}
 
 		b := cur.blk
@@ -136,11 +168,12 @@ func (p *Program) Reach(starts []Loc, target InstrPred, cut CutSpec) (bool, []st
 
 		for i := cur.idx; i < len(b.Instrs); i++ {
 			in := b.Instrs[i]
-			if target(in) {
-				return true, p.witness(cur, in)
+
+			if cur.env.withResolved(in, target) {
+				return true, p.witness(cur, in), false
 			}
 
-			if cut.Nodes != nil && (cut.GoDeferCount || !isGoOrDefer(in)) && cut.Nodes(in) {
+			if cut.Nodes != nil && (cut.GoDeferCount || !isGoOrDefer(in)) && cur.env.withResolved(in, cut.Nodes) {
 				// (a `go f()` / `defer f()` of an enabling call is not that call happening here)
 				stopped = true
 
@@ -155,12 +188,42 @@ func (p *Program) Reach(starts []Loc, target InstrPred, cut CutSpec) (bool, []st
 		if ifi, ok := b.Instrs[len(b.Instrs)-1].(*ssa.If); ok {
 			cond := resolvePhiCond(ifi, cur.pred)
 
+			var (
+				aKey     string
+				aNeg     bool
+				aDecided *bool
+				abx, aby *ssa.BasicBlock
+			)
+
+			if sense != nil {
+				cond = cur.env.resolve(cond, 0)
+				aKey, aNeg, aDecided, abx, aby = atomOf(cond)
+			}
+
 			for k, succ := range b.Succs {
 				taken := k == 0
 				facts := p.Facts(cond, taken)
 
 				if len(facts) == 1 && facts[0] == "never" {
 					continue
+				}
+
+				env := cur.env
+
+				if sense != nil {
+					want := taken != aNeg // truth of the atom on this edge
+
+					if aDecided != nil && *aDecided != want {
+						continue
+					}
+
+					if f, ok := env.facts[aKey]; ok {
+						if f.truth != want {
+							continue
+						}
+					} else if aDecided == nil && sense.multi[aKey] {
+						env = env.withFact(aKey, want, abx, aby)
+					}
 				}
 
 				e := EdgeInfo{If: ifi, Taken: taken, Cond: cond, Facts: facts}
@@ -179,18 +242,27 @@ func (p *Program) Reach(starts []Loc, target InstrPred, cut CutSpec) (bool, []st
 					}
 				}
 
-				queue = append(queue, &pstate{blk: succ, pred: b, prev: cur, note: "[" + strings.Join(facts[:1], ",") + "]", known: known})
+				if sense != nil {
+					env = env.enter(sense, succ, b)
+				}
+
+				queue = append(queue, &pstate{blk: succ, pred: b, prev: cur, note: "[" + strings.Join(facts[:1], ",") + "]", known: known, env: env})
 			}
 
 			continue
 		}
 
 		for _, succ := range b.Succs {
-			queue = append(queue, &pstate{blk: succ, pred: b, prev: cur, known: cur.known})
+			env := cur.env
+			if sense != nil {
+				env = env.enter(sense, succ, b)
+			}
+
+			queue = append(queue, &pstate{blk: succ, pred: b, prev: cur, known: cur.known, env: env})
 		}
 	}
 
-	return false, nil
+	return false, nil, false
 }
 
 // resolvePhiCond: if the If condition is a phi of the If's own block, pick the incoming value
